@@ -426,7 +426,7 @@ def _sites(kind):
         s += ['filter', 'collapse', 'errcheck', 'remove_empty', 'subsample',
               'partition']
     if kind in ('obsdup', 'sampdup'):
-        s += ['update_ids', 'copy', 'derive']
+        s += ['update_ids', 'copy', 'derive', 'filter-inplace']
     return s
 
 
@@ -474,6 +474,20 @@ def _call_site(ctx, kind, site, trigger, variant=0):
             return (lambda: ctx.err.errcheck(e, 'empty')), ([], [])
         return (lambda: ctx.err.errcheck(base, 'empty')), (['o1', 'o2'],
                                                            ['s1', 's2'])
+    if site == 'filter-inplace':
+        # ... and an in-place filter judges its receiver
+        # when it is done, whatever that receiver was like before
+        ids_o = ['o1', 'o1'] if (trigger and kind == 'obsdup') else ['o1',
+                                                                     'o2']
+        ids_s = ['s1', 's1'] if (trigger and kind == 'sampdup') else ['s1',
+                                                                      's2']
+        with ctx.err.errstate(obsdup='ignore', sampdup='ignore'):
+            src = Table(np.array([[1., 2.], [3., 4.]]), ids_o, ids_s)
+        # (by predicate: a filter by id list cannot keep both of two equal
+        # ids, which is why remove_empty is not a site here)
+        ax = 'sample' if variant % 2 == 0 else 'observation'
+        return (lambda: src.filter(lambda v, i, m: True, axis=ax,
+                                   inplace=True)), (ids_o, ids_s)
     if site in ('copy', 'derive'):
         # a table that was put together while repeated ids were tolerated is
         # copied (or a new table derived from it) under the profile in force
